@@ -39,11 +39,19 @@ def run_check(prop, tier, root, only_key=None):
         mod = importlib.import_module('checks.%s' % prop.lower())
         index = SourceIndex(root, report)
         mod.run(report, index, tier)
+        for guard in report.deferred:
+            guard()
         if only_key is not None:
             report.findings = [
                 f for f in report.findings if f['key'] == only_key]
         return report.finish()
     except AnalysisError as e:
+        if only_key is not None:
+            report.findings = [
+                f for f in report.findings if f['key'] == only_key]
+        if report.new_findings():
+            # a violation already established stays one
+            return report.finish(partial=str(e))
         print('ANALYSIS-ERROR property=%s %s' % (prop, e))
         return 2
     except Exception:
